@@ -100,23 +100,36 @@ func ruleReadFull(c *Ctx, r *Rep, tier string) {
 				why += " the subtrahend is not (current offset − offset at the start of the member);"
 			}
 		}
-		// returned directly
+		// returned, with io.EOF (stream ends right after the header) converted
 		okRet := false
 		allInstrs(rm, func(ins ssa.Instruction) {
-			if ret, ok := ins.(*ssa.Return); ok && retValue(ret, 0) == ssa.Value(rlCall) {
+			if ret, ok := ins.(*ssa.Return); ok && dependsOn(retValue(ret, 0), rlCall, 0) {
 				okRet = true
 			}
 		})
 		if !okRet {
 			why += " the error of the body read is not returned;"
 		}
+		eofTested := false
+		for _, f := range []*ssa.Function{rm, rl} {
+			allInstrs(f, func(ins ssa.Instruction) {
+				if bo, ok := ins.(*ssa.BinOp); ok && (bo.Op == token.EQL || bo.Op == token.NEQ) && isGlobalLoad(bo.Y, "io", "EOF") {
+					if bo.X == ssa.Value(rlCall) || (rf != nil && dependsOn(bo.X, rf, 0)) {
+						eofTested = true
+					}
+				}
+			})
+		}
+		if !eofTested {
+			why += " the io.EOF that io.ReadFull returns when the stream ends exactly after a member header is passed on unchanged: a file cut there reads as complete;"
+		}
 	}
 	r.Check(why == "", rule, "bgzf.(*decompressor).readMember#need", c.Pos(rm.Pos()), "body read = readLimited(BSIZE+1 − header bytes consumed), error returned", why)
 }
 
-// ruleNeed (PATH-NEED): readMember classifies the remainder: 0 → io.EOF,
-// negative → ErrCorrupt, missing BC → ErrNoBlockSize; no other value of the
-// remainder that a conforming member can have (1..MaxBlockSize) is rejected.
+// ruleNeed (PATH-NEED): readMember classifies the remainder of the member:
+// ≤ 0 → an error that is not io.EOF, missing BC → ErrNoBlockSize; no value a
+// conforming member can have (1..MaxBlockSize) is rejected.
 func ruleNeed(c *Ctx, r *Rep, tier string) {
 	rule := "PATH-NEED"
 	rm := c.Func("bgzf", "(*decompressor).readMember")
@@ -133,7 +146,7 @@ func ruleNeed(c *Ctx, r *Rep, tier string) {
 		return
 	}
 	why := ""
-	sawZero, sawNeg := false, false
+	rejZero, rejNeg := false, false
 	for _, b := range rm.Blocks {
 		i := ifOf(b)
 		if i == nil {
@@ -148,7 +161,7 @@ func ruleNeed(c *Ctx, r *Rep, tier string) {
 			why += fmt.Sprintf(" the remainder is compared with a non-constant at %s;", c.Pos(i.Pos()))
 			continue
 		}
-		// which edge returns an error, and which error?
+		// the set of remainders on the edge that returns an error directly
 		retOn := func(edge int) (ssa.Value, bool) {
 			blk := b.Succs[edge]
 			if ret, ok := blk.Instrs[len(blk.Instrs)-1].(*ssa.Return); ok && len(blk.Preds) == 1 {
@@ -156,27 +169,59 @@ func ruleNeed(c *Ctx, r *Rep, tier string) {
 			}
 			return nil, false
 		}
-		switch {
-		case bo.Op == token.EQL && k == 0:
-			if v, ok := retOn(0); !ok || !isGlobalLoad(v, "io", "EOF") {
-				why += " need == 0 does not return io.EOF;"
-			}
-			sawZero = true
-		case bo.Op == token.LSS && k == 0:
-			if v, ok := retOn(0); !ok || !isGlobalLoad(v, repoMod+"/bgzf", "ErrCorrupt") {
-				why += " need < 0 does not return ErrCorrupt;"
-			}
-			sawNeg = true
-		case (bo.Op == token.GTR && k >= specMaxBlockSize) || (bo.Op == token.GEQ && k > specMaxBlockSize):
-			// hardening against members larger than the buffer: rejects nothing a writer can produce
+		type iv struct{ lo, hi int64 } // inclusive; ±inf as large numbers
+		const inf = int64(1) << 40
+		var tr, fa iv // values of need on the true / false edge
+		switch bo.Op {
+		case token.EQL:
+			tr, fa = iv{k, k}, iv{-inf, inf}
+		case token.LSS:
+			tr, fa = iv{-inf, k - 1}, iv{k, inf}
+		case token.LEQ:
+			tr, fa = iv{-inf, k}, iv{k + 1, inf}
+		case token.GTR:
+			tr, fa = iv{k + 1, inf}, iv{-inf, k}
+		case token.GEQ:
+			tr, fa = iv{k, inf}, iv{-inf, k - 1}
 		default:
-			why += fmt.Sprintf(" the remainder is tested `%s %d` at %s: a conforming member can need any size in 1..%d, so this rejects (or misclassifies) valid input;", bo.Op, k, c.Pos(i.Pos()), specMaxBlockSize)
+			why += fmt.Sprintf(" unsupported test of the remainder at %s;", c.Pos(i.Pos()))
+			continue
+		}
+		for edge, set := range []iv{tr, fa} {
+			v, isRet := retOn(edge)
+			if !isRet {
+				continue
+			}
+			if bo.Op == token.EQL && edge == 1 {
+				continue
+			}
+			// rejected values must not include any size a conforming member can need
+			if set.lo <= specMaxBlockSize && set.hi >= 1 {
+				why += fmt.Sprintf(" the test `need %s %d` at %s rejects remainders in [%d,%d]∩[1,%d]: members a conforming writer produces are refused;", bo.Op, k, c.Pos(i.Pos()), set.lo, set.hi, specMaxBlockSize)
+			}
+			if set.hi <= 0 || set.lo <= 0 {
+				if isNilConst(v) || isGlobalLoad(v, "io", "EOF") {
+					why += fmt.Sprintf(" a remainder ≤ 0 (BSIZE not larger than the header already read) is answered with %v at %s: a corrupted BSIZE reads as a clean end of data;", v, c.Pos(i.Pos()))
+				}
+				for x := set.lo; x <= set.hi && x <= 0; x++ {
+					if x < -2 {
+						x = -2
+						rejNeg = true
+						continue
+					}
+					if x == 0 {
+						rejZero = true
+					} else {
+						rejNeg = true
+					}
+				}
+			}
 		}
 	}
-	if !sawZero {
-		why += " need == 0 (a member that ends with its header: clean end) is not handled;"
+	if !rejZero {
+		why += " need == 0 (BSIZE covering only the header) is not rejected: a zero-length body read would follow;"
 	}
-	if !sawNeg {
+	if !rejNeg {
 		why += " need < 0 (BSIZE smaller than the header already read) is not rejected;"
 	}
 	// missing block size
@@ -212,7 +257,7 @@ func ruleNeed(c *Ctx, r *Rep, tier string) {
 	if !okNo {
 		why += " a member without the BC subfield is not rejected with ErrNoBlockSize;"
 	}
-	r.Check(why == "", rule, "bgzf.(*decompressor).readMember#classify", c.Pos(rm.Pos()), "need == 0 → io.EOF; need < 0 → ErrCorrupt; no BC → ErrNoBlockSize; every size 1..MaxBlockSize accepted", why)
+	r.Check(why == "", rule, "bgzf.(*decompressor).readMember#classify", c.Pos(rm.Pos()), "need ≤ 0 → an error other than io.EOF; no BC → ErrNoBlockSize; every size 1..MaxBlockSize accepted", why)
 }
 
 // ruleEOFDrain (PATH-EOFDRAIN): readToEOF returns a nil error only after it has
@@ -394,6 +439,8 @@ func init() {
 			{Name: "PATH-READFULL", What: "the member body is fetched by io.ReadFull of exactly BSIZE+1 minus the header bytes consumed, and the read's error is returned", Floor: 2, Run: ruleReadFull},
 			{Name: "PATH-NEED", What: "readMember: remainder 0 → io.EOF, negative → ErrCorrupt, no BC subfield → ErrNoBlockSize; no size a conforming member can have is rejected", Floor: 1, Run: ruleNeed},
 			{Name: "PATH-EOFDRAIN", What: "readToEOF returns nil only after io.EOF from the gzip reader (CRC32/ISIZE verified by compress/gzip); its error is returned by block.readFrom", Floor: 1, Run: ruleEOFDrain},
+			{Name: "GZ-MULTISTREAM", What: "no function of package bgzf switches the gzip reader's multistream mode off (who-may-call, expected 0; canary keeps the rule alive)", Floor: 40, Run: ruleMultistream("bgzf"),
+				Canary: func(cc *Ctx, r *Rep) { ruleMultistream("gzc")(cc, r, "quick") }, WantFail: []string{"gzc.Bad#multistream"}, WantPassMin: 1},
 			{Name: "PATH-BAMLEN", What: "bam.newBuffer returns the errors of both reads; io.EOF inside a record is not a clean end", Floor: 1, Run: ruleBamLen},
 			{Name: "ERR-LATCH", What: "bam.Reader.Read consults the record buffer's sticky error before returning a record", Floor: 1, Run: ruleStickyErr(bamLatch)},
 			{Name: "ERR-1", What: "no error returned by a call in bgzf or bam is dropped (exemptions named with their reason)", Floor: 60, Run: ruleNoDroppedError([]string{"bgzf", "bam"}, errExempt)},
